@@ -5,6 +5,7 @@ mod c13;
 mod c13r;
 mod ioerr;
 mod sock;
+mod spans;
 mod c16;
 mod c17;
 mod c19;
@@ -125,6 +126,25 @@ fn main() {
                 .filter_map(|l| sock::parse(l))
                 .enumerate()
                 .map(|(i, s)| sock::to_case(&s, i))
+                .collect();
+            write_cases(&out.expect("--out"), &cases);
+        }
+        ("spans", "gen") => {
+            let mut rng = Rng::new(seed);
+            let mut w = open_out(&out);
+            for _ in 0..count {
+                writeln!(w, "{}", spans::show(&spans::gen(&mut rng))).unwrap();
+            }
+        }
+        ("spans", "sweep") => {
+            let mut w = open_out(&out);
+            spans::sweep(|s| writeln!(w, "{}", spans::show(&s)).unwrap());
+        }
+        ("spans", "run") => {
+            let cases: Vec<Case> = read_lines(&input)
+                .iter()
+                .filter_map(|l| spans::parse(l))
+                .map(|s| spans::to_case(&s))
                 .collect();
             write_cases(&out.expect("--out"), &cases);
         }
